@@ -2578,6 +2578,9 @@ task update from user %d for task from user %d failed: permission denied",
 		free(deconst(res->dflt_cred.wd));
 		free(deconst(res->dflt_cred.sh));
 		free_echs_task(res->t);
+		/* runs of the old task keep counting, but the new one
+		 * hasn't been run as yet */
+		res->nrun = 0U;
 	} else if (UNLIKELY((res = make_task(t->oid)) == NULL)) {
 		ECHS_ERR_LOG("cannot submit new task");
 		return -1;
